@@ -50,6 +50,10 @@ pub struct HedgeCase {
     /// primary attempt starts at that first poll and the delays count from the attempts' starts
     #[serde(default)]
     pub poll_delay: u64,
+    /// at every instant the attempts (tasks on the runtime) run before the hedging future is
+    /// polled, so that a result and a due timer are seen in the same poll
+    #[serde(default)]
+    pub spawned_first: bool,
 }
 
 fn one() -> u64 {
@@ -87,9 +91,10 @@ fn case_strategy(_tier: Tier) -> BoxedStrategy<HedgeCase> {
             prop_oneof![3 => Just(0u64), 1 => 1u64..=40, 1 => (1u64..=8).prop_map(|k| k * 10)],
             prop::bool::weighted(0.2),
             prop_oneof![4 => Just(0u64), 1 => 1u64..=120, 1 => (1u64..=10).prop_map(|k| k * 10)],
+            prop::bool::weighted(0.35),
         ),
     )
-        .prop_map(|(max, delay, attempts, order, step_ms, max_last, (clone_ready_ms, drain_budget, poll_delay))| HedgeCase {
+        .prop_map(|(max, delay, attempts, order, step_ms, max_last, (clone_ready_ms, drain_budget, poll_delay, spawned_first))| HedgeCase {
             max,
             delay,
             attempts,
@@ -100,6 +105,7 @@ fn case_strategy(_tier: Tier) -> BoxedStrategy<HedgeCase> {
             clone_ready_ms: if step_ms > 1 { 0 } else { clone_ready_ms },
             drain_budget,
             poll_delay,
+            spawned_first,
         })
         .boxed()
 }
@@ -142,6 +148,7 @@ async fn interp(case: &HedgeCase) -> Verdict {
     let mut violations = vec![];
     let log = Log::new();
     let mut sim = Sim::new(log.clone(), case.order.clone());
+    sim.spawned_first = case.spawned_first;
     let mut table: HashMap<u32, Vec<Step>> = HashMap::new();
     table.insert(
         0,
@@ -383,6 +390,9 @@ async fn interp(case: &HedgeCase) -> Verdict {
     }
     if case.step_ms > 1 {
         classes.push("coarse_clock_steps");
+    }
+    if case.spawned_first {
+        classes.push("attempts_run_before_the_hedging_future_each_instant");
     }
     if case.poll_delay > 0 {
         classes.push("first_poll_later_than_call");
